@@ -292,6 +292,7 @@ package syncer
 //@     invariant high: tCpHigh <= lastOffset && cpArmed == 0
 //@     invariant status: txnStatus >= txnStatusNo && txnStatus <= txnStatusCommit
 //@     invariant txn: inTransaction ==> (transactionMode && !needFlush && (txnStatus == txnStatusBegin || txnStatus == txnStatusIn))
+//@     invariant an_open_source_transaction_suppresses_every_other_flush: transactionMode && (txnStatus == txnStatusBegin || txnStatus == txnStatusIn) ==> inTransaction
 //@     invariant queue: queueClean(cmdQueue)
 //@     invariant every_received_command_was_queued_or_is_a_documented_removal: unqueued == 0
 
